@@ -82,6 +82,8 @@ def _task(task):
             runs += [('default', x) for x in r['results']]
             out['distinct_hist'] += r['distinct']
             out['capped'] += int(r['capped'])
+            out['full_trees'] = out.get('full_trees', 0) + int(r['full_tree'])
+            out['explored_args'] = out.get('explored_args', 0) + 1
             out['choice_points'] += len(r['results'][0].choices)
         else:
             runs.append(('default', tabx.execute(name, arg, extra_opts=cap)))
@@ -144,6 +146,8 @@ def run(ctx):
         arguments=sum(r['args'] for r in res), valid_executions=sum(r['valid_execs'] for r in res),
         outcome_classes=outcomes, choice_points_on_default_schedules=sum(r['choice_points'] for r in res),
         schedule_caps_hit=sum(r['capped'] for r in res),
+        arguments_with_schedule_exploration=sum(r.get('explored_args', 0) for r in res),
+        arguments_whose_full_schedule_tree_was_explored=sum(r.get('full_trees', 0) for r in res),
         countermodel_searches=sum(r['cm_searches'] for r in res), reference_models_examined=sum(r['cm_models'] for r in res),
         countermodel_searches_cut_by_model_cap=sum(r['cm_incomplete'] for r in res),
         deviation_bound=1 if ctx.quick else 2, logics=len(names), step_cap=STEP_CAP[ctx.tier],
